@@ -107,7 +107,20 @@ Fixpoint strs_text (es : list bytes) (tail : bytes) : bytes :=
               end
   end.
 
-Definition escd (s e : bytes) : Prop := valid_utf8 s /\ json_escape s = Ok e.
+(* [e] is what json_escape writes for [s] *)
+Definition escd0 (s e : bytes) : Prop := valid_utf8 s /\ json_escape s = Ok e.
+(* [e] is A spelling of [s]: whatever follows its closing quote, json_unescape reads it back as [s] and consumes exactly
+   [e], and the string skipper skips exactly [e] and the quote.  json_escape's output is one such spelling; so is every
+   other choice of escapes (Spelling.v). *)
+Definition escd (s e : bytes) : Prop :=
+  (forall rest cap, len s <= cap -> json_unescape (e ++ 34 :: rest) cap = Ok (len e, s)) /\
+  (forall rest, burn_string (e ++ 34 :: rest) = Ok rest).
+Lemma escd0_escd s e : escd0 s e -> escd s e.
+Proof.
+  intros [Vs Es]. split.
+  - intros rest cap Hc. exact (escape_unescape_roundtrip s e rest cap Vs Es Hc).
+  - intros rest. exact (burn_string_escaped s e rest Vs Es).
+Qed.
 
 Lemma eat_ws_nonws c r : is_ws c = false -> eat_ws (c :: r) = c :: r.
 Proof. intros H. cbn [eat_ws]. rewrite H. reflexivity. Qed.
@@ -120,7 +133,7 @@ Lemma read_tag_strings_spec ss : forall es fuel pre F tail num,
         len pre + sumN (map str_size ss), num + len ss - 1).
 Proof.
   induction ss as [|s rest IH]; intros es fuel pre F tail num H2 Hne Hf Hcap; [congruence|].
-  inversion H2 as [|? e ? er [Vs Es] H2r]; subst. destruct fuel as [|fuel]; [cbn [length] in Hf; lia|].
+  inversion H2 as [|? e ? er [Hun Hbu] H2r]; subst. destruct fuel as [|fuel]; [cbn [length] in Hf; lia|].
   cbn [map sumN] in Hcap. unfold str_size in Hcap at 1.
   (* split the free area: 2 bytes for the length, len s bytes for the data *)
   destruct (split_free F 2 ltac:(lia)) as [EF L2]. remember (take 2 F) as f2 eqn:Ef2. remember (drop 2 F) as F1 eqn:EF1d.
@@ -135,7 +148,7 @@ Proof.
   rewrite Htext. cbn [read_tag_strings].
   assert (Hlo : len (pre ++ F) = len pre + len F) by apply len_app.
   replace (len (pre ++ F) <? len pre + 2) with false by (symmetry; apply N.ltb_ge; lia).
-  rewrite (escape_unescape_roundtrip s e cont _ Vs Es) by lia. cbn [bind].
+  rewrite (Hun cont _) by lia. cbn [bind].
   (* data, then length *)
   assert (Hput1 : put (pre ++ F) (len pre + 2) s = Ok (pre ++ f2 ++ s ++ F')).
   { rewrite EF, EF1. replace (pre ++ f2 ++ fs ++ F') with ((pre ++ f2) ++ fs ++ F') by (rewrite <- app_assoc; reflexivity).
@@ -307,11 +320,11 @@ Proof. destruct es; cbn [cont_after]; eexists _, _; split; reflexivity. Qed.
 Lemma burn_tag_strings_spec ss : forall es fuel tail, Forall2 escd ss es -> (length ss < fuel)%nat ->
   burn_tag_strings fuel (cont_after es tail) = Ok tail.
 Proof.
-  induction ss as [|s rest IH]; intros es fuel tail H2 Hf; inversion H2 as [|? e ? er [Vs Es] H2r]; subst;
+  induction ss as [|s rest IH]; intros es fuel tail H2 Hf; inversion H2 as [|? e ? er [Hun Hbu] H2r]; subst;
     (destruct fuel as [|fuel]; [cbn [length] in Hf; lia|]); cbn [cont_after burn_tag_strings peek bind].
   - change (93 =? 44) with false. cbv iota. cbn [verify_char]. change (93 =? 93) with true. reflexivity.
   - change (44 =? 44) with true. cbv iota. cbn [tl]. rewrite eat_ws_nonws by reflexivity. cbn [verify_char]. change (34 =? 34) with true. cbv iota. cbn [bind].
-    rewrite (burn_string_escaped s e _ Vs Es). cbn [bind].
+    rewrite (Hbu _). cbn [bind].
     destruct (cont_after_nonws er tail) as [c0 [r0 [E0 H0]]]. rewrite E0, eat_ws_nonws by exact H0. rewrite <- E0.
     apply (IH er fuel tail H2r). cbn [length] in Hf. lia.
 Qed.
@@ -319,10 +332,10 @@ Qed.
 Lemma burn_tag_spec t es tail : Forall2 escd t es -> burn_tag (tag_text es tail) = Ok tail.
 Proof.
   intros H2. unfold burn_tag. destruct (tag_text_nonws es tail) as [c0 [r0 [E0 H0]]]. rewrite E0, eat_ws_nonws by exact H0. rewrite <- E0.
-  destruct t as [|s rest]; inversion H2 as [|? e ? er [Vs Es] H2r]; subst.
+  destruct t as [|s rest]; inversion H2 as [|? e ? er [Hun Hbu] H2r]; subst.
   - cbn [tag_text peek bind]. change (93 =? 93) with true. reflexivity.
   - cbn [tag_text peek bind]. change (34 =? 93) with false. cbv iota. cbn [verify_char]. change (34 =? 34) with true. cbv iota. cbn [bind].
-    rewrite strs_text_cont, (burn_string_escaped s e _ Vs Es). cbn [bind].
+    rewrite strs_text_cont, (Hbu _). cbn [bind].
     destruct (cont_after_nonws er tail) as [c1 [r1 [E1 H1]]]. rewrite E1, eat_ws_nonws by exact H1. rewrite <- E1.
     apply (burn_tag_strings_spec rest er _ tail H2r).
     apply F2_length in H2r. rewrite H2r. cbn [length]. rewrite app_length. cbn [length].
@@ -460,7 +473,7 @@ Proof.
   assert (Hstr : forall t, Forall valid_utf8 t -> exists es, Forall2 escd t es /\ map_res json_string t = Ok (map (fun e => [34] ++ e ++ [34]) es)).
   { induction t as [|s r IH]; intros Ht; [exists []; split; [constructor|reflexivity]|].
     inversion Ht as [|? ? Hs Hr]; subst. destruct (IH Hr) as [es [H2 Hm]].
-    destruct (json_escape_succeeds_on_valid s Hs) as [e He]. exists (e :: es). split; [constructor; [split; assumption|exact H2]|].
+    destruct (json_escape_succeeds_on_valid s Hs) as [e He]. exists (e :: es). split; [constructor; [apply escd0_escd; split; assumption|exact H2]|].
     cbn [map_res]. unfold json_string at 1. rewrite He. cbn [bind]. rewrite Hm. reflexivity. }
   assert (Htags : exists tes, Forall2 (Forall2 escd) ts tes /\
      map_res (fun t => match map_res json_string t with Ok ss => Ok ([91] ++ join [44] ss ++ [93]) | _ => Panic end) ts
@@ -492,10 +505,10 @@ Lemma read_content_spec s e x0 pre F rest after_tags : escd s e -> len x0 = 4 ->
   read_content (34 :: e ++ 34 :: rest) ((x0 ++ pre) ++ F) after_tags
   = Ok (rest, le32 (after_tags + 4 + len s) ++ pre ++ le32 (len s) ++ s ++ drop (4 + len s) F).
 Proof.
-  intros [Vs Es] L0 La Hcap. unfold read_content. cbn [verify_char]. change (34 =? 34) with true. cbv iota. cbn [bind].
+  intros [Hun Hbu] L0 La Hcap. unfold read_content. cbn [verify_char]. change (34 =? 34) with true. cbv iota. cbn [bind].
   rewrite len_app, La.
   replace (after_tags + len F <? after_tags + 4) with false by (symmetry; apply N.ltb_ge; lia).
-  rewrite (escape_unescape_roundtrip s e rest _ Vs Es) by lia. cbn [bind].
+  rewrite (Hun rest _) by lia. cbn [bind].
   destruct (split_free F 4 ltac:(lia)) as [EF L4]. remember (take 4 F) as f4 eqn:Ef4. remember (drop 4 F) as F1 eqn:EF1d. clear Ef4.
   assert (LF1 : len F1 = len F - 4) by (rewrite EF1d; apply len_drop).
   destruct (split_free F1 (len s) ltac:(lia)) as [EF1 Ls]. remember (take (len s) F1) as fs eqn:Efs. remember (drop (len s) F1) as F2 eqn:EF2d. clear Efs.
@@ -739,7 +752,7 @@ Proof.
   subst R5. cbn [event_members]. rewrite (eat_ws_nonws 34) by reflexivity. cbn [verify_char]. change (34 =? 34) with true. cbv iota. cbn [bind].
   rewrite (em_content _ (e_content e) cj x0
              (le16 (e_kind e) ++ [0; 0] ++ le64 (e_created e) ++ e_id e ++ e_pk e ++ x80 ++ enc_tags (e_tags e))
-             (drop (tags_size (e_tags e)) F) (44 :: R6) (conj Vc Hcj) L0) by solve_em.
+             (drop (tags_size (e_tags e)) F) (44 :: R6) (escd0_escd _ _ (conj Vc Hcj)) L0) by solve_em.
   cbn [bind ev_complete ev_tags_size ev_content_start]. rewrite next_field_comma. cbn [bind].
   (* sig *)
   subst R6. cbn [event_members]. rewrite (eat_ws_nonws 34) by reflexivity. cbn [verify_char]. change (34 =? 34) with true. cbv iota. cbn [bind].
